@@ -203,6 +203,20 @@ let handle kind c =
              ~model:(Printf.sprintf "a: mem %s file %s; long: mem %s file %s" (hexn (Stdlib.fst exp_a)) (hexn (Stdlib.snd exp_a)) (hexn (Stdlib.fst exp_l)) (hexn (Stdlib.snd exp_l)))
              ~impl:(Printf.sprintf "a: mem %s file %s; long: mem %s file %s" (hexn extra) (hexn persisted) (hexn extra_l) (hexn persisted_l))
        end)
+  | "cfail" ->
+    (* a rotation that fails while an Add is under way: oracle only *)
+    let fkind = next c in let k = next_int c in let has_ptr = next_bool c in
+    let status = next c in let parked = next_bool c in
+    let total = next_n c in let extra = next_n c in let persisted = next_n c in
+    let _calls = next_int c in let _steps = next_int c in
+    let where = Printf.sprintf "failing-rotation[%s] after %d steps of the Add (counter %s a pointer)" fkind k (if has_ptr then "has" else "has not yet") in
+    (match status with
+     | "panic" -> prop "panic" (where ^ ": a panic escaped from Counter.Add / rotate1")
+     | "hang" -> prop "hang" (where ^ ": Add / rotate1 did not return within the step budget")
+     | _ ->
+       ignore parked;
+       if N.ltb total (N.add extra persisted) then
+         prop "counts-invented" (Printf.sprintf "%s: in memory %s + persisted %s > added %s" where (hexn extra) (hexn persisted) (hexn total)))
   | k -> diff "unknown-case-kind" ~model:k ~impl:"-"
 
 let () = run_file Sys.argv.(1) handle
